@@ -19,7 +19,7 @@ from valida.rules import Rule
 from valida.schema import Schema
 
 META = {
-    "rule": "every single rule (24 paths x 14 conditions x 4 casts incl. the declared-but-empty one), every ordered pair over a 14-rule pool (incl. cast-only rules), 113 schemas composed with add_schema (4 roots) and "
+    "rule": "every single rule (24 paths x 19 conditions x 4 casts incl. the declared-but-empty one), every ordered pair over a 14-rule pool (incl. cast-only rules), 113 schemas composed with add_schema (4 roots) and "
             "every ordered triple over a 6-rule pool; a case is one schema, its rules individually and as a whole "
             "serialised -> json text -> rebuilt, compared on every probe document; non-trivial = rebuilt and "
             "compared on all documents with at least one rule tested on some document",
@@ -45,6 +45,12 @@ CONDS = [
     L("Value", "in_", [PA, 5, {"path": ["x"]}]), ("and", L("Value", "greater_than", 0), L("ValueDataType", "equal_to", int)),
     ("or", ("xor", L("Value", "truthy"), L("Value", "equal_to", "true")), L("Value", "is_instance", dict, list)),
     T.NULL,
+    # the root path (no parts: an object of length 0) as an item of a list / keyword argument
+    L("Value", "in_", [("$path", P((), "length")), 0]), L("ValueLength", "in_range", lower=0, upper=("$path", P((), "length"))),
+    # right-nested and balanced same-operator combinations
+    ("and", L("Value", "greater_than", 0), ("and", L("ValueDataType", "equal_to", int), L("Value", "less_than", 9))),
+    ("xor", L("Value", "truthy"), ("xor", L("Value", "equal_to", 3), L("ValueDataType", "equal_to", str))),
+    ("or", ("or", L("Value", "equal_to", 1), L("Value", "equal_to", 2)), ("or", L("Value", "equal_to", 3), L("Value", "equal_to", "3"))),
 ]
 CASTS = [(), (("str", "bool"),), (("str", "int"),), "empty"]
 DOCS = [
